@@ -26,6 +26,7 @@ type Region struct {
 	fresh   bool // allocated during the activation under verification
 	global  bool
 	ronly   bool // read-only ghost region (string literals etc.)
+	ghostBytes *SliceVal // parsed OID values remember their content octets
 	lazy    bool // cells are created on demand as deterministic symbolic variables
 	created int  // state epoch of creation
 }
